@@ -26,13 +26,18 @@ type Case struct {
 	Goal    *rt.Term   `json:"goal"`
 	Res     *rt.Term   `json:"res"`
 	Nested  bool       `json:"nested,omitempty"`
-	ViaVar  bool       `json:"via_var,omitempty"` // the goal reaches the call through a variable bound beforehand
-	Inner   bool       `json:"inner,omitempty"`   // with ViaVar: only the part under the outermost ^ goes through the variable
-	DQ      string     `json:"dq,omitempty"`      // double_quotes value set before loading ("" = default)
-	Assert  bool       `json:"assert,omitempty"`  // the clauses are added by assertz instead of Exec
+	ViaVar  bool       `json:"via_var,omitempty"`  // the goal reaches the call through a variable bound beforehand
+	Inner   bool       `json:"inner,omitempty"`    // with ViaVar: only the part under the outermost ^ goes through the variable
+	TmplVia bool       `json:"tmpl_via,omitempty"` // the template reaches the call through a variable bound beforehand
+	DQ      string     `json:"dq,omitempty"`       // double_quotes value set before loading ("" = default)
+	Assert  bool       `json:"assert,omitempty"`   // the clauses are added by assertz instead of Exec
 }
 
 func (c Case) call() *rt.Term {
+	if c.TmplVia && !c.ViaVar {
+		// T = Template, bagof(T, Goal, L): the variables of the template are the template's, bound late or early
+		return rt.C(",", rt.C("=", rt.V(61), c.Tmpl), rt.C(c.Kind, rt.V(61), c.Goal, c.Res))
+	}
 	if c.ViaVar && c.Inner && c.Goal.Is("^", 2) {
 		// the outer ^ is written in place, the rest of the goal (possibly with further ^) reaches it through a variable
 		return rt.C(",", rt.C("=", rt.V(60), c.Goal.A[1]), rt.C(c.Kind, c.Tmpl, rt.C("^", c.Goal.A[0], rt.V(60)), c.Res))
@@ -174,6 +179,7 @@ func genCase() *rapid.Generator[Case] {
 		c.DQ = []string{"", "", "", "", "", "", "", "", "", "codes", "atom", "codes"}[x.n(0, 11, "dq")]
 		c.Assert = x.n(0, 5, "assert") == 5
 		c.ViaVar = x.p(30, "viavar")
+		c.TmplVia = x.n(0, 7, "tmplvia") == 7
 		c.Inner = x.p(50, "innerviavar")
 		switch k := x.n(0, 9, "res"); {
 		case k < 7:
